@@ -182,7 +182,17 @@ impl varlink::Interface for ScriptIface {
                 }
                 "g" => {
                     // the upgraded service speaks first: raw bytes right behind the reply that confirmed the upgrade
-                    let _ = call.writer.write_all(format!("HELLO-{}\n", tok).as_bytes());
+                    // (`greet_len`: a greeting of exactly that many bytes whose last line feed is followed by 500 more bytes)
+                    let mut hello = format!("HELLO-{}\n", tok).into_bytes();
+                    if let Some(n) = params.get("greet_len").and_then(|v| v.as_u64()) {
+                        let n = n as usize;
+                        if n > hello.len() + 502 {
+                            hello.extend(std::iter::repeat(b'x').take(n - hello.len() - 501));
+                            hello.push(b'\n');
+                            hello.extend(std::iter::repeat(b'y').take(500));
+                        }
+                    }
+                    let _ = call.writer.write_all(&hello);
                     let _ = call.writer.flush();
                     results.push("set".into());
                 }
